@@ -16,7 +16,9 @@ makes the Python recurse without end); `none` = out of fuel or a Python exceptio
 -/
 namespace Viv
 
-abbrev Addr := Nat
+/-- addresses are natural numbers (a notation rather than a definition, so that arithmetic
+decision procedures see `Nat`) -/
+notation "Addr" => Nat
 
 inductive HVal where
   | atom (s : String)
@@ -188,17 +190,12 @@ def looseOrEmpty : Heap → List (Option Addr) → List Addr × Heap
     let rs := looseOrEmpty r.2 rest
     (r.1 :: rs.1, rs.2)
 
-/-- `self.merge(composite=other, <loose parts>, path=path)`: `self`'s dict objects are mutated in
-place (their addresses stay), the result is the new heap.  `other = none`:
-`composite or Composite({})` makes a composite of new empty dictionaries. -/
-def mergeCompH (fuel : Nat) (h : Heap) (self : HComp) (other : Option HComp)
+/-- `merge` once the merged-in composite's part dictionaries `ol` are known -/
+def mergeCompCore (fuel : Nat) (h : Heap) (self : HComp) (ol : List Addr)
     (loose : List (Option Addr)) (path : List String) : Option Heap :=
-  let o := match other with
-    | some o => (o, h)
-    | none => allocEmpties h self.length
-  let l := looseOrEmpty o.2 loose
+  let l := looseOrEmpty h loose
   let mx := allocEmpties l.2 self.length
-  match copyPhase fuel mx.2 mx.1 o.1 with
+  match copyPhase fuel mx.2 mx.1 ol with
   | none => none
   | some h1 =>
     match mergePhase fuel h1 mx.1 l.1 with
@@ -207,6 +204,17 @@ def mergeCompH (fuel : Nat) (h : Heap) (self : HComp) (other : Option HComp)
       match nestPhase path h2 mx.1 with
       | none => none
       | some (ss, h3) => mergePhase fuel h3 self ss
+
+/-- `self.merge(composite=other, <loose parts>, path=path)`: `self`'s dict objects are mutated in
+place (their addresses stay), the result is the new heap.  `other = none`:
+`composite or Composite({})` makes a composite of new empty dictionaries. -/
+def mergeCompH (fuel : Nat) (h : Heap) (self : HComp) (other : Option HComp)
+    (loose : List (Option Addr)) (path : List String) : Option Heap :=
+  match other with
+  | some o => mergeCompCore fuel h self o loose path
+  | none =>
+    let e := allocEmpties h self.length
+    mergeCompCore fuel e.2 self e.1 loose path
 
 /-! ## Values ↔ heap (used to set up scenarios and to read composites back) -/
 
@@ -225,6 +233,13 @@ where
       let rs := go r.2 rest
       ((k, r.1) :: rs.1, rs.2)
 
+def reflectItems (rec : HVal → Option Val) : Obj → Option (List (String × Val))
+  | [] => some []
+  | (k, v) :: rest =>
+    match rec v, reflectItems rec rest with
+    | some x, some r => some ((k, x) :: r)
+    | _, _ => none
+
 /-- read a value back (`unleaf` decodes atoms); fuel-bounded -/
 def reflectH (unleaf : String → Val) : Nat → Heap → HVal → Option Val
   | _, _, .atom s => some (unleaf s)
@@ -233,9 +248,7 @@ def reflectH (unleaf : String → Val) : Nat → Heap → HVal → Option Val
     match h.get a with
     | none => none
     | some obj =>
-      match obj.mapM (fun kv => match reflectH unleaf f h kv.2 with
-          | some v => some (kv.1, v)
-          | none => none) with
+      match reflectItems (reflectH unleaf f h) obj with
       | some kvs => some (.dict kvs)
       | none => none
 
@@ -248,5 +261,47 @@ def dictAddrs : Nat → Heap → List String → HVal → List (List String × A
     match h.get a with
     | none => [(path, a)]
     | some obj => (path, a) :: obj.flatMap (fun kv => dictAddrs f h (path ++ [kv.1]) kv.2)
+
+/-! ## Merge sequences over a pool of composites -/
+
+/-- `pool[target].merge(pool[other], <loose parts given as new dictionaries>, path)` -/
+structure MergeOp where
+  target : Nat
+  other : Option Nat
+  loose : List (Option Val)
+  path : List String
+
+/-- allocate the loose parts that are given (each a new dictionary tree) -/
+def reifyLoose (leaf : Val → String) : Heap → List (Option Val) → List (Option Addr) × Heap
+  | h, [] => ([], h)
+  | h, none :: rest =>
+    let rs := reifyLoose leaf h rest
+    (none :: rs.1, rs.2)
+  | h, some v :: rest =>
+    let r := reifyH leaf h v
+    let rs := reifyLoose leaf r.2 rest
+    ((match r.1 with
+      | .ref a => some a
+      | .atom _ => none) :: rs.1, rs.2)
+
+def runOp (leaf : Val → String) (fuel : Nat) (pool : List HComp) (h : Heap) (op : MergeOp) :
+    Option Heap :=
+  match pool[op.target]? with
+  | none => none
+  | some self =>
+    let l := reifyLoose leaf h op.loose
+    match op.other with
+    | none => mergeCompH fuel l.2 self none l.1 op.path
+    | some j =>
+      match pool[j]? with
+      | none => none
+      | some o => mergeCompH fuel l.2 self (some o) l.1 op.path
+
+def runOps (leaf : Val → String) (fuel : Nat) (pool : List HComp) : Heap → List MergeOp → Option Heap
+  | h, [] => some h
+  | h, op :: rest =>
+    match runOp leaf fuel pool h op with
+    | none => none
+    | some h1 => runOps leaf fuel pool h1 rest
 
 end Viv
